@@ -612,8 +612,22 @@ theorem emits_seqAll7 {f1 f2 f3 f4 f5 f6 f7 : Enc → ERes Unit} {L1 L2 L3 L4 L5
 /-- the RDATA variants covered by the round-trip proof so far -/
 def _root_.HickoryVerif.Wire.RData.proved : RData → Bool
   | .a _ | .aaaa _ | .name _ | .mx _ _ | .soa _ _ _ _ _ _ _ | .txt _ | .srv _ _ _ _ | .hinfo _ _ | .null _
-  | .unknown _ _ => true
+  | .unknown _ _
+  | .ds _ _ _ _ | .dnskey _ _ _ _ | .tlsa _ _ _ _ | .sshfp _ _ _ | .openpgpkey _ | .cert _ _ _ _
+  | .nsec3param _ _ _ | .caa _ _ _ _ => true
   | _ => false
+
+/-- wire form of the name-free "blob" variants (stage 3): fixed fields, then the rest as it is -/
+def blobWire : RData → Bytes
+  | .ds tag alg dt dg => u16b tag ++ ([alg, dt] ++ dg)
+  | .dnskey _ flags alg key => u16b flags ++ ([3, alg] ++ key)
+  | .tlsa u sel m d => [u, sel, m] ++ d
+  | .sshfp a f d => [a, f] ++ d
+  | .openpgpkey d => d
+  | .cert ct tag alg d => u16b ct ++ (u16b tag ++ ([alg] ++ d))
+  | .nsec3param oo iter salt => [1, (if oo then 1 else 0)] ++ (u16b iter ++ ([salt.length] ++ salt))
+  | .caa cr rs tag v => [rs + (if cr then 128 else 0), tag.length] ++ (tag ++ v)
+  | _ => []
 
 /-- the layout `RData::emit` leaves for the covered variants -/
 def layRData : RData → Lay
@@ -632,6 +646,14 @@ def layRData : RData → Lay
   | .hinfo c o => laySeg ((c.length :: c) ++ (o.length :: o))
   | .null d => laySeg d
   | .unknown _ d => laySeg d
+  | .ds tag alg dt dg => laySeg (blobWire (.ds tag alg dt dg))
+  | .dnskey cd flags alg key => laySeg (blobWire (.dnskey cd flags alg key))
+  | .tlsa u sel m d => laySeg (blobWire (.tlsa u sel m d))
+  | .sshfp a f d => laySeg (blobWire (.sshfp a f d))
+  | .openpgpkey d => laySeg (blobWire (.openpgpkey d))
+  | .cert ct tag alg d => laySeg (blobWire (.cert ct tag alg d))
+  | .nsec3param oo iter salt => laySeg (blobWire (.nsec3param oo iter salt))
+  | .caa cr rs tag v => laySeg (blobWire (.caa cr rs tag v))
   | _ => fun _ _ _ _ => False
 
 /-- the names inside the covered RDATA variants are well-formed names -/
@@ -641,6 +663,14 @@ def _root_.HickoryVerif.Wire.RData.namesWF : RData → Prop
   | .srv _ _ _ n => n.WF
   | .soa m r _ _ _ _ _ => m.WF ∧ r.WF
   | .aaaa b => b.length = 16 ∧ ∀ x ∈ b, x < 256
+  -- the blob family: the one-octet fields are octets (`as u8` / `u8::from` on the Rust side)
+  | .ds _ alg dt _ => alg < 256 ∧ dt < 256
+  | .dnskey _ _ alg _ => alg < 256
+  | .tlsa u sel m _ => u < 256 ∧ sel < 256 ∧ m < 256
+  | .sshfp a f _ => a < 256 ∧ f < 256
+  | .cert _ _ alg _ => alg < 256
+  | .nsec3param _ _ salt => salt.length < 256
+  | .caa _ rs tag _ => rs < 128 ∧ tag.length < 256
   | _ => True
 
 theorem isLayout_rdata (d : RData) (hp : d.proved = true) : IsLayout (layRData d) := by
@@ -661,6 +691,7 @@ theorem isLayout_rdata (d : RData) (hp : d.proved = true) : IsLayout (layRData d
   case hinfo => exact isLayout_seg _
   case null => exact isLayout_seg _
   case unknown => exact isLayout_seg _
+  all_goals exact isLayout_seg _
 
 theorem emits_emitRData (t : Nat) (d : RData) (hp : d.proved = true) (hwf : d.namesWF) :
     Emits (emitRData t d) (layRData d) := by
@@ -686,6 +717,61 @@ theorem emits_emitRData (t : Nat) (d : RData) (hp : d.proved = true) (hwf : d.na
     simpa [seqAll] using this
   case null d => exact emits_emitSlice d
   case unknown c d => exact emits_emitSlice d
+  case openpgpkey d => exact emits_emitSlice d
+  case ds tag alg dt dg =>
+    have h1 := emits_emitU8 alg; have h2 := emits_emitU8 dt
+    rw [Nat.mod_eq_of_lt hwf.1] at h1; rw [Nat.mod_eq_of_lt hwf.2] at h2
+    have := emits_seg_seq (emits_emitU16 tag) (emits_seg_seq h1 (emits_seg_seq h2
+      (emits_seg_seq (emits_emitSlice dg) emits_nothing_seg)))
+    simpa [seqAll, blobWire, u16b] using this
+  case dnskey cd flags alg key =>
+    have h1 := emits_emitU8 alg; have h3 := emits_emitU8 3
+    rw [Nat.mod_eq_of_lt hwf] at h1
+    have := emits_seg_seq (emits_emitU16 flags) (emits_seg_seq h3 (emits_seg_seq h1
+      (emits_seg_seq (emits_emitSlice key) emits_nothing_seg)))
+    simpa [seqAll, blobWire, u16b] using this
+  case tlsa u sel m d =>
+    have h1 := emits_emitU8 u; have h2 := emits_emitU8 sel; have h3 := emits_emitU8 m
+    rw [Nat.mod_eq_of_lt hwf.1] at h1; rw [Nat.mod_eq_of_lt hwf.2.1] at h2; rw [Nat.mod_eq_of_lt hwf.2.2] at h3
+    have := emits_seg_seq h1 (emits_seg_seq h2 (emits_seg_seq h3
+      (emits_seg_seq (emits_emitSlice d) emits_nothing_seg)))
+    simpa [seqAll, blobWire] using this
+  case sshfp a f d =>
+    have h1 := emits_emitU8 a; have h2 := emits_emitU8 f
+    rw [Nat.mod_eq_of_lt hwf.1] at h1; rw [Nat.mod_eq_of_lt hwf.2] at h2
+    have := emits_seg_seq h1 (emits_seg_seq h2 (emits_seg_seq (emits_emitSlice d) emits_nothing_seg))
+    simpa [seqAll, blobWire] using this
+  case cert ct tag alg d =>
+    have h1 := emits_emitU8 alg
+    rw [Nat.mod_eq_of_lt hwf] at h1
+    have := emits_seg_seq (emits_emitU16 ct) (emits_seg_seq (emits_emitU16 tag) (emits_seg_seq h1
+      (emits_seg_seq (emits_emitSlice d) emits_nothing_seg)))
+    refine emits_withRdataBehavior ?_ _
+    simpa [seqAll, blobWire, u16b] using this
+  case nsec3param oo iter salt =>
+    have h1 := emits_emitU8 1
+    have h2 := emits_emitU8 (if oo then 1 else 0)
+    have h3 := emits_emitU8 (salt.length % 256)
+    have e2 : (if oo then 1 else 0) % 256 = (if oo then 1 else 0) := by cases oo <;> rfl
+    rw [e2] at h2
+    rw [Nat.mod_mod, Nat.mod_eq_of_lt hwf] at h3
+    have := emits_seg_seq h1 (emits_seg_seq h2 (emits_seg_seq (emits_emitU16 iter) (emits_seg_seq h3
+      (emits_seg_seq (emits_emitSlice salt) emits_nothing_seg))))
+    have hmod : salt.length % 256 = salt.length := Nat.mod_eq_of_lt hwf
+    simpa [seqAll, blobWire, u16b, hmod] using this
+  case caa cr rs tag v =>
+    have h1 := emits_emitU8 (rs % 128 + (if cr then 128 else 0))
+    have e1 : (rs % 128 + (if cr then 128 else 0)) % 256 = rs + (if cr then 128 else 0) := by
+      have := hwf.1; cases cr <;> simp <;> omega
+    rw [e1] at h1
+    have h2 := emits_emitU8 tag.length
+    rw [Nat.mod_eq_of_lt hwf.2] at h2
+    have hnot : ¬ tag.length > 255 := by have := hwf.2; omega
+    refine emits_withRdataBehavior ?_ _
+    simp only [hnot, ↓reduceIte]
+    have := emits_seg_seq h1 (emits_seg_seq h2 (emits_seg_seq (emits_emitSlice tag)
+      (emits_seg_seq (emits_emitSlice v) emits_nothing_seg)))
+    simpa [seqAll, blobWire] using this
 
 /-- the layout of a record -/
 def layRecord (r : Record) : Lay :=
@@ -832,6 +918,16 @@ def _root_.HickoryVerif.Wire.RData.typeOK (t : Nat) : RData → Prop
   | .hinfo c o => t = 13 ∧ c.length ≤ 255 ∧ o.length ≤ 255
   | .null _ => t = 10
   | .unknown c _ => c = t ∧ UnknownType t
+  -- the blob family; what the decoders insist on is part of the contract: a CERT without certificate
+  -- data and a CAA whose tag is not 1..15 alphanumerics are refused by `read_data`
+  | .ds tag _ _ _ => (t = 43 ∨ t = 59) ∧ tag < 65536
+  | .dnskey cd flags _ _ => ((t = 48 ∧ cd = false) ∨ (t = 60 ∧ cd = true)) ∧ flags < 65536
+  | .tlsa _ _ _ _ => t = 52 ∨ t = 53
+  | .sshfp _ _ _ => t = 44
+  | .openpgpkey _ => t = 61
+  | .cert ct tag _ d => t = 37 ∧ ct < 65536 ∧ tag < 65536 ∧ d ≠ []
+  | .nsec3param _ iter _ => t = 51 ∧ iter < 65536
+  | .caa _ _ tag _ => t = 257 ∧ 1 ≤ tag.length ∧ tag.length ≤ 15 ∧ tag.all isAlnum = true
   | _ => False
 
 /-- the value with every embedded name made fully qualified (what `Name::read` returns) -/
@@ -914,6 +1010,36 @@ theorem reads_aaaa {opq : Nat → Rd Bytes} {buf b : Bytes} {p : Nat} (hlen : b.
   rw [a0.1, a0.2, a1.1, a1.2, a2.1, a2.2, a3.1, a3.2, a4.1, a4.2, a5.1, a5.2, a6.1, a6.2, a7.1, a7.2]
 
 /-- **the RDATA decoders invert the RDATA emitters** (covered variants) -/
+theorem segAt_cons_get {buf : Bytes} {p x : Nat} {rest : Bytes} (h : SegAt buf p (x :: rest)) :
+    buf[p]? = some x := by
+  have := segAt_of_getElem (i := 0) h rfl; simpa using this
+
+theorem segAt_cons_tail {buf : Bytes} {p x : Nat} {rest : Bytes} (h : SegAt buf p (x :: rest)) :
+    SegAt buf (p + 1) rest := by
+  have := SegAt.append_right (a := [x]) (b := rest) (by simpa using h); simpa using this
+
+theorem reads_u16_seg {buf rest : Bytes} {p v : Nat} (h : SegAt buf p (u16b v ++ rest)) (hv : v < 65536) :
+    Reads Rd.readU16 buf p v (p + 2) :=
+  reads_u16_of_seg (H := fun _ => True) ⟨h.append_left, rfl⟩ hv
+
+theorem segAt_u16_tail {buf rest : Bytes} {p v : Nat} (h : SegAt buf p (u16b v ++ rest)) :
+    SegAt buf (p + 2) rest := by simpa [u16b] using h.append_right
+
+theorem reads_toEnd_seg {buf rest : Bytes} {p : Nat} (h : SegAt buf p rest) (he : p + rest.length = buf.length) :
+    Reads Rd.readVecToEnd buf p rest buf.length := by
+  have := Reads.readVecToEnd buf p; rwa [drop_of_segAt_end h he] at this
+
+theorem reads_readTag {buf : Bytes} : ∀ (tag acc : Bytes) (p : Nat), SegAt buf p tag → tag.all isAlnum = true →
+    Reads (readTag tag.length acc) buf p (acc ++ tag) (p + tag.length)
+  | [], acc, p, _, _ => by simpa [readTag] using Reads.pure acc buf p
+  | c :: tag, acc, p, h, hall => by
+    simp only [List.all_cons, Bool.and_eq_true] at hall
+    simp only [List.length_cons, readTag]
+    refine Reads.bind (Reads.pop (segAt_cons_get h)) ?_
+    rw [if_pos hall.1]
+    have := reads_readTag tag (acc ++ [c]) (p + 1) (segAt_cons_tail h) hall.2
+    simpa [List.append_assoc, Nat.add_assoc, Nat.add_comm 1] using this
+
 theorem reads_rdataBody {H : Nat × Nat → Prop} {opq : Nat → Rd Bytes} {t : Nat} {buf : Bytes} {p : Nat}
     (d : RData) (hp : d.proved = true) (hty : d.typeOK t) (hwf : d.namesWF)
     (hl : layRData d H buf p buf.length) : Reads (readRDataBody opq t) buf p d.fq buf.length := by
@@ -1018,12 +1144,177 @@ theorem reads_rdataBody {H : Nat × Nat → Prop} {opq : Nat → Rd Bytes} {t : 
     refine Reads.bind (Reads.readVecToEnd buf p) ?_
     rw [drop_of_segAt_end hseg hq.symm]
     exact Reads.pure _ _ _
+  case ds tag alg dt dg =>
+    obtain ⟨ht, htag⟩ := hty
+    obtain ⟨hseg, hq⟩ := hl
+    simp only [blobWire, List.length_append, List.length_cons, List.length_nil, u16b] at hq
+    have s1 := segAt_u16_tail hseg
+    have s2 := segAt_cons_tail s1
+    have s3 : SegAt buf (p + 2 + 1 + 1) dg := segAt_cons_tail s2
+    have hbody : readRDataBody opq t = (do
+        let tag ← Rd.readU16; let alg ← Rd.pop; let dt ← Rd.pop
+        let d ← Rd.readVecToEnd
+        pure (.ds tag alg dt d)) := by
+      rcases ht with rfl | rfl <;> rfl
+    rw [hbody]
+    refine Reads.bind (reads_u16_seg hseg htag) ?_
+    refine Reads.bind (Reads.pop (segAt_cons_get s1)) ?_
+    refine Reads.bind (Reads.pop (segAt_cons_get s2)) ?_
+    refine Reads.bind (reads_toEnd_seg s3 (by omega)) ?_
+    exact Reads.pure _ _ _
+  case dnskey cd flags alg key =>
+    obtain ⟨ht, hfl⟩ := hty
+    obtain ⟨hseg, hq⟩ := hl
+    simp only [blobWire, List.length_append, List.length_cons, List.length_nil, u16b] at hq
+    have s1 := segAt_u16_tail hseg
+    have s2 := segAt_cons_tail s1
+    have s3 : SegAt buf (p + 2 + 1 + 1) key := segAt_cons_tail s2
+    have hbody : readRDataBody opq t = (do
+        let flags ← Rd.readU16
+        let proto ← Rd.pop
+        if proto ≠ 3 then Rd.fail
+        else
+          let alg ← Rd.pop
+          let k ← Rd.readVecToEnd
+          pure (.dnskey cd flags alg k)) := by
+      rcases ht with ⟨rfl, rfl⟩ | ⟨rfl, rfl⟩ <;> rfl
+    rw [hbody]
+    refine Reads.bind (reads_u16_seg hseg hfl) ?_
+    refine Reads.bind (Reads.pop (segAt_cons_get s1)) ?_
+    rw [if_neg (by simp)]
+    refine Reads.bind (Reads.pop (segAt_cons_get s2)) ?_
+    refine Reads.bind (reads_toEnd_seg s3 (by omega)) ?_
+    exact Reads.pure _ _ _
+  case tlsa u sel m d =>
+    obtain ⟨hseg, hq⟩ := hl
+    simp only [blobWire, List.length_append, List.length_cons, List.length_nil] at hq
+    have s1 := segAt_cons_tail hseg
+    have s2 := segAt_cons_tail s1
+    have s3 : SegAt buf (p + 1 + 1 + 1) d := segAt_cons_tail s2
+    have hbody : readRDataBody opq t = (do
+        let u ← Rd.pop; let sel ← Rd.pop; let m ← Rd.pop
+        let d ← Rd.readVecToEnd
+        pure (.tlsa u sel m d)) := by
+      rcases hty with rfl | rfl <;> rfl
+    rw [hbody]
+    refine Reads.bind (Reads.pop (segAt_cons_get hseg)) ?_
+    refine Reads.bind (Reads.pop (segAt_cons_get s1)) ?_
+    refine Reads.bind (Reads.pop (segAt_cons_get s2)) ?_
+    refine Reads.bind (reads_toEnd_seg s3 (by omega)) ?_
+    exact Reads.pure _ _ _
+  case sshfp a f d =>
+    obtain rfl := hty
+    obtain ⟨hseg, hq⟩ := hl
+    simp only [blobWire, List.length_append, List.length_cons, List.length_nil] at hq
+    have s1 := segAt_cons_tail hseg
+    have s2 : SegAt buf (p + 1 + 1) d := segAt_cons_tail s1
+    have hbody : readRDataBody opq 44 = (do
+        let a ← Rd.pop; let f ← Rd.pop
+        let d ← Rd.readVecToEnd
+        pure (.sshfp a f d)) := rfl
+    rw [hbody]
+    refine Reads.bind (Reads.pop (segAt_cons_get hseg)) ?_
+    refine Reads.bind (Reads.pop (segAt_cons_get s1)) ?_
+    refine Reads.bind (reads_toEnd_seg s2 (by omega)) ?_
+    exact Reads.pure _ _ _
+  case openpgpkey d =>
+    obtain rfl := hty
+    obtain ⟨hseg, hq⟩ := hl
+    simp only [blobWire] at hq hseg
+    have hbody : readRDataBody opq 61 = (do
+        let d ← Rd.readVecToEnd
+        pure (.openpgpkey d)) := rfl
+    rw [hbody]
+    refine Reads.bind (reads_toEnd_seg hseg (by omega)) ?_
+    exact Reads.pure _ _ _
+  case cert ct tag alg d =>
+    obtain ⟨rfl, hct, htag, hne⟩ := hty
+    obtain ⟨hseg, hq⟩ := hl
+    simp only [blobWire, List.length_append, List.length_cons, List.length_nil, u16b] at hq
+    have hdl : 0 < d.length := List.length_pos_iff.2 hne
+    have s1 := segAt_u16_tail hseg
+    have s2 := segAt_u16_tail s1
+    have s3 : SegAt buf (p + 2 + 2 + 1) d := segAt_cons_tail s2
+    have hbody : readRDataBody opq 37 = (do
+        let left ← Rd.remaining
+        if left ≤ 5 then Rd.fail
+        else
+          let ct ← Rd.readU16; let tag ← Rd.readU16; let alg ← Rd.pop
+          let d ← Rd.readVecToEnd
+          pure (.cert ct tag alg d)) := rfl
+    rw [hbody]
+    refine Reads.bind (Reads.remaining buf p) ?_
+    rw [if_neg (by omega)]
+    refine Reads.bind (reads_u16_seg hseg hct) ?_
+    refine Reads.bind (reads_u16_seg s1 htag) ?_
+    refine Reads.bind (Reads.pop (segAt_cons_get s2)) ?_
+    refine Reads.bind (reads_toEnd_seg s3 (by omega)) ?_
+    exact Reads.pure _ _ _
+  case nsec3param oo iter salt =>
+    obtain ⟨rfl, hit⟩ := hty
+    obtain ⟨hseg, hq⟩ := hl
+    simp only [blobWire, List.length_append, List.length_cons, List.length_nil, u16b] at hq
+    have s1 := segAt_cons_tail hseg
+    have s2 := segAt_cons_tail s1
+    have s3 := segAt_u16_tail s2
+    have s4 : SegAt buf (p + 1 + 1 + 2 + 1) salt := segAt_cons_tail s3
+    have hbody : readRDataBody opq 51 = (do
+        let (optOut, iter, salt) ← readNsec3Head
+        pure (.nsec3param optOut iter salt)) := rfl
+    rw [hbody]
+    have hhead : Reads readNsec3Head buf p (oo, iter, salt) buf.length := by
+      unfold readNsec3Head
+      refine Reads.bind (Reads.pop (segAt_cons_get hseg)) ?_
+      rw [if_neg (by simp)]
+      refine Reads.bind (Reads.pop (segAt_cons_get s1)) ?_
+      rw [if_neg (by cases oo <;> simp)]
+      refine Reads.bind (reads_u16_seg s2 hit) ?_
+      refine Reads.bind (Reads.pop (segAt_cons_get s3)) ?_
+      refine Reads.bind (Reads.remaining buf _) ?_
+      rw [if_neg (by omega)]
+      refine Reads.bind (Reads.readSlice s4) ?_
+      have he : p + 1 + 1 + 2 + 1 + salt.length = buf.length := by omega
+      rw [he]
+      refine Reads.pure' _ _ ?_
+      cases oo <;> simp
+    refine Reads.bind hhead ?_
+    exact Reads.pure _ _ _
+  case caa cr rs tag v =>
+    obtain ⟨rfl, ht1, ht15, hal⟩ := hty
+    obtain ⟨hseg, hq⟩ := hl
+    simp only [blobWire, List.length_append, List.length_cons, List.length_nil] at hq
+    have s1 := segAt_cons_tail hseg
+    have s2 : SegAt buf (p + 1 + 1) (tag ++ v) := segAt_cons_tail s1
+    have s3 : SegAt buf (p + 1 + 1) tag := s2.append_left
+    have s4 : SegAt buf (p + 1 + 1 + tag.length) v := s2.append_right
+    have hbody : readRDataBody opq 257 = (do
+        let flags ← Rd.pop
+        let tagLen ← Rd.pop
+        if tagLen = 0 ∨ tagLen > 15 then Rd.fail
+        else
+          let tag ← readTag tagLen []
+          let v ← Rd.readVecToEnd
+          pure (.caa (decide (flags / 128 = 1)) (flags % 128) tag v)) := rfl
+    rw [hbody]
+    refine Reads.bind (Reads.pop (segAt_cons_get hseg)) ?_
+    refine Reads.bind (Reads.pop (segAt_cons_get s1)) ?_
+    rw [if_neg (by omega)]
+    have := reads_readTag tag [] (p + 1 + 1) s3 hal
+    simp only [List.nil_append] at this
+    refine Reads.bind this ?_
+    refine Reads.bind (reads_toEnd_seg s4 (by omega)) ?_
+    have hrs := hwf.1
+    have e1 : decide ((rs + (if cr then 128 else 0)) / 128 = 1) = cr := by cases cr <;> simp <;> omega
+    have e2 : (rs + (if cr then 128 else 0)) % 128 = rs := by cases cr <;> simp <;> omega
+    rw [e1, e2]
+    exact Reads.pure _ _ _
 
 /-- RDATA that encodes to at least one octet (RDLENGTH 0 is read as `Update0`) -/
 def _root_.HickoryVerif.Wire.RData.nonEmpty : RData → Prop
   | .txt ss => ss ≠ []
   | .null d => d ≠ []
   | .unknown _ d => d ≠ []
+  | .openpgpkey d => d ≠ []
   | _ => True
 
 theorem layRData_pos {H : Nat × Nat → Prop} {b : Bytes} {p q : Nat} (d : RData) (hp : d.proved = true)
@@ -1076,6 +1367,13 @@ theorem layRData_pos {H : Nat × Nat → Prop} {b : Bytes} {p q : Nat} (d : RDat
     obtain ⟨_, rfl⟩ := hl
     have : dd.length ≠ 0 := fun h => hne (List.eq_nil_of_length_eq_zero h)
     omega
+  case openpgpkey dd =>
+    obtain ⟨_, rfl⟩ := hl
+    have : dd.length ≠ 0 := fun h => hne (List.eq_nil_of_length_eq_zero h)
+    simp only [blobWire]; omega
+  all_goals
+    obtain ⟨_, rfl⟩ := hl
+    simp [blobWire, u16b]
 
 /-- the record with every name made fully qualified -/
 def _root_.HickoryVerif.Wire.Record.fq (r : Record) : Record :=
